@@ -609,6 +609,11 @@ func vcliC18Session(r *verifrt.R, c *verifrt.Case) {
 			fmt.Fprint(sig, "=le-L-unanswered")
 			if rq.Err == nil {
 				s.Viol("success-without-answer", "%s", desc+lastTrace)
+			} else if sh.goAwaySent && !last.sc.closedBySrv && !last.st.srvReset && last.st.hdrDone {
+				// The server named this stream in its GOAWAY as one it is going to process, has
+				// not reset it and has kept the connection open (the script closes or answers,
+				// it never does anything else): the client gave the request up by itself.
+				s.Viol("request-on-stream-le-last-stream-id-abandoned-by-client", "stream %d on conn %d is not above the GOAWAY's last-stream-id %d, the server neither reset it nor closed the connection (client closed it: %v), yet RoundTrip failed: %s", last.st.id, last.sc.Idx, sh.goAwayLast, last.sc.Dead, desc+lastTrace)
 			} else if sh.goAwaySent {
 				r.Event("requests_on_stream_le_L_failed_with_conn_error", 1)
 				if _, ok := rq.Err.(GoAwayError); ok {
